@@ -645,7 +645,7 @@ class BinaryCircuit(object):
         self.gates: Gates = gates                   # Gate set to be used (specifies the noisy behaviour)
         self._backend = BinaryBackend(nqubit)       # Backend for the computations
         self._BackendClass = BinaryBackend          # Always BinaryBackend
-        self.qubit_layout = qubit_layout if qubit_layout else np.arange(self.nqubit)
+        self.qubit_layout = qubit_layout if qubit_layout is not None and len(qubit_layout) > 0 else np.arange(self.nqubit)
 
         # Bookkeeping
         self.phi = [0 for i in range(nqubit)]       # Phases
